@@ -26,8 +26,8 @@ TABLE = {
     'C05': ("Decides the selection and miss-policy logic: positional isel with the selector built by pairing column i with dimension i, geometry dropped first, variables filtered by selected dimensions, one lookup per point in order, 'error' names exactly the None positions, kept points and their labels come from the same filtered sequence, policy tables of library and CLI agree, outer merge iff 'fill'.",
             "Trusts xarray isel/merge/squeeze and pandas. Bit-for-bit value equality is not decided.",
             "static analysis: value-flow pairing + literal table agreement"),
-    'C06': ("Decides the construction rules of cell polygons and extent: four-corner rings are Hamiltonian cycles of the unit square (any orientation), x comes from longitude and y from latitude, bounds acceptance guards and midpoint synthesis windows, lookups go through a namespace containing coordinates, optional attributes are read defensively in variable scans, the validity filter dominates publication, extent slots are (min x, min y, max x, max y).",
-            "Trusts GEOS validity, numpy nanmin/nanmax/pad semantics. Self-intersection detection itself and unused-node effects are not decided.",
+    'C06': ("Decides the construction rules of cell polygons and extent: four-corner rings are Hamiltonian cycles of the unit square (any orientation), x comes from longitude and y from latitude, bounds acceptance guards and midpoint synthesis windows, lookups go through a namespace containing coordinates, optional attributes are read defensively in variable scans, the validity filter dominates publication, the extent is the bounding box of the polygons that exist with slots (min x, min y, max x, max y), the coordinates are found by CF's markers and every coordinate role is bound to its own name.",
+            "Trusts GEOS validity, shapely.total_bounds (missing geometries are skipped) and numpy pad semantics. Self-intersection detection itself is not decided.",
             "static analysis: abstract interpretation (axes + index offsets) + CFG dominance + namespace lint"),
     'C07': ("Decides predicate and flat-write layout of the three make_clip_mask implementations, the centred symmetric dilation window of blur_mask for all sizes (linear forms), the Arakawa edge/node smear table, monotone (positive-polarity) mask construction, ring count, and sorted-unique renumbering of faces/edges/nodes.",
             "Trusts STRtree/GEOS, numpy pad/nditer order. Exhaustive small-array agreement with a definition would need execution and is not claimed.",
